@@ -5,7 +5,7 @@
    UpdateMaxProbe never under-approximates, the growth policy does not shrink / probing reaches every bucket,
    CalcCapacity <= physical size); they are proved below for the kinds used by the extracted model. *)
 From Coq Require Import ZArith List Bool Permutation.
-From C11 Require Import GrowModel GenTie GenGrow GenFull.
+From C11 Require Import GrowModel GenTie GenGrow GenFull GenFullP4.
 Import ListNotations.
 Local Open Scope Z_scope.
 
@@ -438,6 +438,150 @@ Theorem C11_refused_insert_full_iff_generated_IsFull_n1 :
          (forall d : Z -> Z, In d ds -> Gen_OpenN1_ops.IsFull rv mc d = true).
 Proof. exact refused_insert_full_iff_generated_IsFull_n1. Qed.
 Print Assumptions C11_refused_insert_full_iff_generated_IsFull_n1.
+
+(* the same clause for BucketLimP4<4> (hashCount 4..8): 'Hash table is full' under refused growth <-> the GENERATED IsFull is true on the bytes of every bucket, for every real table whose buckets (metadata bytes, item pointer, pointer state) represent the model table. *)
+Theorem C11_refused_insert_full_iff_generated_IsFull_limp4 :
+  forall (B : Type) (b0 : B) (decode : Z -> B -> Z) (upd_bound : B -> Z -> B) (h : Z -> Z) (wf0 : bool) 
+           (wfull : Z -> bool) (start : Z -> Z -> Z) (next : Z -> Z -> Z -> Z) (logStart : Z) (calcCapacity shift : Z -> Z)
+           (nothrowReloc : bool) (H : Z),
+         4 <= H <= 8 ->
+         kind_ok B decode upd_bound 4 wfull start next logStart shift ->
+         kind_ok2 4 start next calcCapacity ->
+         kind_ok3 calcCapacity ->
+         forall (s : hset B) (t : table B) (r : list (table B)) (k : Z) (sch : list bool) (ds : list ((Z -> Z) * Z * Z)),
+         Inv B b0 decode h 4 wf0 start next nothrowReloc s ->
+         gens B s = t :: r ->
+         ~ In k (abs B s) ->
+         (count B s <? capacity B s) = false ->
+         Forall2 (rel_p4_bucket B H) ds (tbs B t) ->
+         step B b0 decode upd_bound h 4 wf0 wfull start next logStart calcCapacity shift nothrowReloc s
+           (OInsert k false false true sch) = Some (s, RFull) <-> (forall d : (Z -> Z) * Z * Z, In d ds -> gen_full_p4 d = true).
+Proof. exact refused_insert_full_iff_generated_IsFull_limp4. Qed.
+Print Assumptions C11_refused_insert_full_iff_generated_IsFull_limp4.
+
+(* ... and for BucketOne (state word). *)
+Theorem C11_refused_insert_full_iff_generated_IsFull_one :
+  forall (B : Type) (b0 : B) (decode : Z -> B -> Z) (upd_bound : B -> Z -> B) (h : Z -> Z) (wf0 : bool) 
+           (wfull : Z -> bool) (start : Z -> Z -> Z) (next : Z -> Z -> Z -> Z) (logStart : Z) (calcCapacity shift : Z -> Z)
+           (nothrowReloc : bool),
+         kind_ok B decode upd_bound 1 wfull start next logStart shift ->
+         kind_ok2 1 start next calcCapacity ->
+         kind_ok3 calcCapacity ->
+         forall (s : hset B) (t : table B) (r : list (table B)) (k : Z) (sch : list bool) (ds : list Z),
+         Inv B b0 decode h 1 wf0 start next nothrowReloc s ->
+         gens B s = t :: r ->
+         ~ In k (abs B s) ->
+         (count B s <? capacity B s) = false ->
+         Forall2 (rel_one B) ds (tbs B t) ->
+         step B b0 decode upd_bound h 1 wf0 wfull start next logStart calcCapacity shift nothrowReloc s
+           (OInsert k false false true sch) = Some (s, RFull) <-> (forall d : Z, In d ds -> Gen_One.IsFull d = true).
+Proof. exact refused_insert_full_iff_generated_IsFull_one. Qed.
+Print Assumptions C11_refused_insert_full_iff_generated_IsFull_one.
+
+(* generated BucketLimP4::IsFull AND ::WasFull (memory-pool index in the pointer state) = the model bucket's isFull / wasFull under the abstraction relation rel_p4. *)
+Theorem C11_p4_full_agrees :
+  forall (B : Type) (H : Z),
+         4 <= H <= 8 ->
+         forall (s : Z -> Z) (ptr stt : Z) (b : bucket B),
+         rel_p4 B H s ptr stt b -> Gen_P4A.IsFull s ptr stt = isFull B 4 b /\ Gen_P4A.WasFull s ptr stt = wasFull B b.
+Proof. exact p4_full_agrees. Qed.
+Print Assumptions C11_p4_full_agrees.
+
+(* generated BucketLimP4::AddCrt -- all five branches (pvAdd0<min>, pvAdd0<max>, pvAdd<1..3>, spare slot), whatever memory it is handed -- keeps rel_p4 with one more item and with the model's WasFull rule wasFull' = wasFull || (maxCount <= count'). *)
+Theorem C11_p4_add :
+  forall (B : Type) (H : Z),
+         4 <= H <= 8 ->
+         forall (s : Z -> Z) (ptr stt : Z) (b : bucket B) (k x L probe m0a m0b m1a m1b m2a m2b m3a m3b m4a m4b : Z),
+         rel_p4 B H s ptr stt b ->
+         isFull B 4 b = false ->
+         0 <= x < 2 ^ 64 ->
+         0 <= L <= 63 ->
+         0 <= probe < 2 ^ 64 ->
+         m0a <> 0 ->
+         m1a <> 0 ->
+         m2a <> 0 ->
+         m3a <> 0 ->
+         m4a <> 0 ->
+         exists (r : Z) (s' : Z -> Z) (ptr' stt' : Z),
+           Gen_P4A.AddCrt H 2 s ptr stt x L probe m0a m0b m1a m1b m2a m2b m3a m3b m4a m4b = GenPrelude.Ok (r, s', ptr', stt') /\
+           rel_p4 B H s' ptr' stt'
+             {|
+               items := items B b ++ [k];
+               wasFull := wasFull B b || (4 <=? Z.of_nat (length (items B b ++ [k])));
+               bound := bound B b
+             |}.
+Proof. exact p4_add. Qed.
+Print Assumptions C11_p4_add.
+
+(* generated BucketLimP4::Remove keeps rel_p4 with one item less and WasFull KEPT (the frame condition the lookup invariant needs: removal never resets WasFull while items are reachable through the bucket). *)
+Theorem C11_p4_remove :
+  forall (B : Type) (H : Z),
+         4 <= H <= 8 ->
+         forall (s : Z -> Z) (ptr stt : Z) (b : bucket B) (its : list Z) (iter idx : Z),
+         rel_p4 B H s ptr stt b ->
+         0 <= idx < blen B b ->
+         (blen B b = 1 -> iter = ptr) ->
+         Z.of_nat (length its) = blen B b - 1 ->
+         exists (r : Z) (s' : Z -> Z) (ptr' stt' : Z),
+           Gen_P4A.Remove H 2 s ptr stt iter idx = GenPrelude.Ok (r, s', ptr', stt') /\
+           rel_p4 B H s' ptr' stt' {| items := its; wasFull := wasFull B b; bound := bound B b |}.
+Proof. exact p4_remove. Qed.
+Print Assumptions C11_p4_remove.
+
+(* generated BucketLimP4::Clear: empty, not full, WasFull false (minMemPoolIndex 2 <> maxCount). *)
+Theorem C11_p4_clear :
+  forall (B : Type) (H : Z),
+         4 <= H <= 8 ->
+         forall (s : Z -> Z) (ptr stt : Z),
+         B ->
+         let
+         '(s', ptr', stt') := Gen_P4A.Clear H 2 s ptr stt in
+          Gen_P4.pvGetCount s' = 0 /\ ptr' = 0 /\ Gen_P4A.WasFull s' ptr' stt' = false /\ Gen_P4A.IsFull s' ptr' stt' = false.
+Proof. exact p4_clear. Qed.
+Print Assumptions C11_p4_clear.
+
+(* generated BucketOne::IsFull / ::WasFull = the model bucket's isFull / wasFull. *)
+Theorem C11_one_full_agrees :
+  forall (B : Type) (st : Z) (b : bucket B),
+         rel_one B st b -> Gen_One.IsFull st = isFull B 1 b /\ Gen_One.WasFull st = wasFull B b.
+Proof. exact one_full_agrees. Qed.
+Print Assumptions C11_one_full_agrees.
+
+(* generated BucketOne::AddCrt keeps the relation (full, WasFull set). *)
+Theorem C11_one_add :
+  forall (B : Type) (st : Z) (b : bucket B) (k hc : Z),
+         rel_one B st b ->
+         isFull B 1 b = false ->
+         exists st' : Z,
+           Gen_One.AddCrt st hc = GenPrelude.Ok (tt, st') /\
+           rel_one B st'
+             {|
+               items := items B b ++ [k];
+               wasFull := wasFull B b || (1 <=? Z.of_nat (length (items B b ++ [k])));
+               bound := bound B b
+             |}.
+Proof. exact one_add. Qed.
+Print Assumptions C11_one_add.
+
+(* generated BucketOne::Remove: not full any more, WasFull still set. *)
+Theorem C11_one_remove :
+  forall (B : Type) (st : Z) (b : bucket B) (its : list Z) (addr : Z),
+         rel_one B st b ->
+         isFull B 1 b = true ->
+         its = [] ->
+         exists st' : Z,
+           Gen_One.Remove st addr addr = GenPrelude.Ok (tt, st') /\
+           Gen_One.WasFull st' = true /\
+           Gen_One.IsFull st' = false /\
+           (wasFull B b = true -> rel_one B st' {| items := its; wasFull := wasFull B b; bound := bound B b |}).
+Proof. exact one_remove. Qed.
+Print Assumptions C11_one_remove.
+
+(* generated BucketOne::Clear: neither full nor WasFull. *)
+Theorem C11_one_clear :
+  forall st : Z, Gen_One.IsFull (Gen_One.Clear st) = false /\ Gen_One.WasFull (Gen_One.Clear st) = false.
+Proof. exact one_clear. Qed.
+Print Assumptions C11_one_clear.
 
 (* generated BucketOpen2N2::IsFull on the bytes = the model's isFull (maxCount <= number of items) under the abstraction relation. *)
 Theorem C11_o2_full_agrees :
